@@ -19,7 +19,7 @@ for n in names:
         res = {'apply': 'FAILED: ' + ap.stderr[-200:]}
     else:
         for chk in [prop] + ([] if os.environ.get('MATRIX_ONLY_OWN') else ALSO.get(prop, [])):
-            env = dict(os.environ, VERIF_REPO=wt, VERIF_EVIDENCE_DIR='/tmp/mx_evidence', VERIF_KEEP_BUILDS='6')
+            env = dict(os.environ, VERIF_REPO=wt, VERIF_EVIDENCE_DIR='/tmp/mx_evidence', VERIF_KEEP_BUILDS='6', VERIF_NO_CLANG_STAGES='' if os.environ.get('MATRIX_CLANG') else '1')
             t = time.time()
             p = subprocess.run([V + '/check', chk, '--tier', 'quick'], cwd=V, env=env, capture_output=True, text=True)
             keys = [l.strip()[4:].split(' cases=')[0] for l in p.stdout.split('\n') if l.startswith('  key=')]
